@@ -99,11 +99,46 @@ class Corruptor:
 						self.fail('corr', f'model accepts a corrupted document the parser rejects (operator {operator}, site {site} of {label}): {first_difference(text, corrupted)}', case)
 				elif 'rejected' == verdict[0] and verdict[2] is not None:
 					ctx.count('error-line:' + ('same' if str(verdict[2]) == model_verdict else 'differs'))
+				self.with_blank_lines(text, corrupted, operator, site, label)
 				# the command-line / multi-file path gets a stratified sample: every operator is represented
 				if 'accepted' != verdict[0]:
 					bucket = self.cli_by_operator.setdefault(operator, [])
 					if len(bucket) < 40 and (len(bucket) < 4 or ctx.rng.random() < 0.05):
 						bucket.append(case)
+
+
+	def with_blank_lines(self, text, corrupted, operator, site, label):
+		"""the same corruption with whitespace-only lines next to it; the language model arbitrates what is ill-formed"""
+		import json
+		ctx = self.ctx
+		for where, derived in blank_line_variants(text, corrupted, ctx.rng):
+			answer = json.loads(ctx.driver.ask(f'parse {sx(derived)}'))
+			verdict = reject_verdict(derived)
+			ctx.case(derived, None)
+			ctx.count(f'blank-line-next-to-corruption:{where}:{"model-rejects" if not answer["ok"] else "model-accepts"}')
+			case = {'operator': operator, 'site': site, 'document': text, 'corrupted': derived, 'label': label, 'blank_line': where}
+			if not answer['ok'] and 'accepted' == verdict[0]:
+				self.fail('property', (
+					f'ill-formed document accepted once a whitespace-only line stands {where} the corrupted line (operator {operator}, site {site} of {label}): '
+					f'{first_difference(text, derived)}'), case)
+			elif answer['ok'] and 'accepted' != verdict[0]:
+				self.fail('corr', f'model accepts a corrupted document with a whitespace-only line {where} the corruption, the parser rejects it ({verdict[1]})', case)
+
+
+def blank_line_variants(original, corrupted, rng):
+	"""The corrupted text with one whitespace-only line (tabs / blanks, also two such lines) put directly before, and directly
+	after, the first line the corruption touched. Blank lines are trivia: they must not turn an ill-formed text into an accepted one."""
+	newline = '\r\n' if '\r\n' in original else '\n'
+	before, after = original.split('\n'), corrupted.split('\n')
+	index = next((i for i, (left, right) in enumerate(zip(before, after)) if left != right), min(len(before), len(after)) - 1)
+	result = []
+	for position in (index, index + 1):
+		if not 0 < position < len(after):
+			continue
+		filler = rng.choice([['\t'], ['    '], ['  '], ['\t', '\t'], ['  ', '  '], [' \t '], ['\t\t']])
+		lines = after[:position] + [line + ('\r' if '\r\n' == newline else '') for line in filler] + after[position:]
+		result.append(('before' if position == index else 'after', '\n'.join(lines)))
+	return result
 
 
 def first_difference(original, corrupted):
